@@ -26,7 +26,7 @@ def BOUNDS(tier):
 
 
 def REQUIRED_COVER(tier):
-    return {'accept', 'reject:duplicate', 'reject:weight', 'reject:exact-two-thirds', 'reject:empty-set', 'reject:invalid', 'reject:foreign', 'n:3', 'parsed-descriptors', 'two-calls'}
+    return {'accept', 'reject:duplicate', 'reject:weight', 'reject:exact-two-thirds', 'reject:empty-set', 'reject:invalid', 'reject:foreign', 'n:3', 'parsed-descriptors', 'two-calls', 'reused-descriptors', 'block:shardchain'}
 
 
 MAGIC = bytes.fromhex('706e0bc5')
@@ -85,14 +85,14 @@ def world(seed):
     return _W[seed]
 
 
-def case_sigs(rec, weights, seq, blk, parsed=False):
+def case_sigs(rec, weights, seq, blk, parsed=False, wc=-1):
     from pytoniq_core.proof.check_proof import check_block_signatures
     from pytoniq_core.tlb.config import ValidatorDescr, SigPubKey
     from pytoniq_core.tl.block import BlockIdExt
     w = world(rec.seed)
     n = len(weights)
     seq = [tuple(s) for s in seq]
-    args = {'weights': [str(x) for x in weights], 'seq': [list(s) for s in seq], 'blk': blk, 'parsed': parsed}
+    args = {'weights': [str(x) for x in weights], 'seq': [list(s) for s in seq], 'blk': blk, 'parsed': parsed, 'wc': wc}
     weights = [int(x) for x in weights]
     rec.case('sigset')
     nodes = [ValidatorDescr('validator', SigPubKey(w.pubs[i]), weights[i]) for i in range(n)]
@@ -108,7 +108,9 @@ def case_sigs(rec, weights, seq, blk, parsed=False):
             nodes.append(ValidatorDescr.deserialize(b.end_cell().begin_parse()))
         rec.covered('parsed-descriptors')
     rh, fh = w.blocks[blk]
-    bid = BlockIdExt(-1, -(1 << 63), 100 + blk, rh, fh)
+    bid = BlockIdExt(wc, -(1 << 63), 100 + blk, rh, fh)      # the rule is the same for masterchain and shard blocks: weights as supplied
+    if wc != -1:
+        rec.covered('block:shardchain')
     entries, signers, valid = [], [], True
     for s in seq:
         e, signer, ok = w.entry(s, n, blk)
@@ -127,7 +129,7 @@ def case_sigs(rec, weights, seq, blk, parsed=False):
     except Exception as e:
         got = False
     rec.trace()
-    rec.state((tuple(weights), tuple(seq), blk, parsed))
+    rec.state((tuple(weights), tuple(seq), blk, parsed, wc))
     if seq:
         rec.nontriv((tuple(weights), tuple(seq), blk))
     if n == 3:
@@ -191,6 +193,8 @@ def shard_n(rec, n, part, parts):
             if i % parts != part:
                 continue
             case_sigs(rec, wv, seq, i % 2)
+            if len(set(wv)) > 1:
+                case_sigs(rec, wv, seq, i % 2, wc=0)        # a shard-chain block id, where head count and weight disagree
             if max(wv, default=0) >= 2 ** 53 or i % 16 == 0:
                 case_sigs(rec, wv, seq, i % 2, parsed=True)
     rec.sample({'weights': [1, 1, 1][:n], 'signatures': [['valid', 0], ['valid', 0], ['valid', 0]], 'expect': 'reject (one validator counted three times)'})
@@ -236,6 +240,64 @@ def case_two_calls(rec, a, b):
     rec.outcome('two-ok')
 
 
+def case_reused(rec, s1, m, change, s2):
+    """the caller keeps ONE list of descriptor objects: a check with it, then the caller replaces a key / a weight in place (a new
+    validator set), then another check: the second verdict follows the descriptors' CURRENT keys and weights.
+    s1: signer mask of call 1 over keys 0..2; m: index of the changed descriptor; change: ('key', 3) or ('weight', w); s2: signer mask of
+    call 2 over keys 0..3"""
+    from pytoniq_core.proof.check_proof import check_block_signatures
+    from pytoniq_core.tlb.config import ValidatorDescr, SigPubKey
+    from pytoniq_core.tl.block import BlockIdExt
+    w = world(rec.seed)
+    args = {'s1': s1, 'm': m, 'change': list(change), 's2': s2}
+    rec.case('reused-descriptors')
+    rec.state(('reused', s1, m, tuple(change), s2))
+    rec.nontriv(('reused', s1, m, tuple(change), s2))
+    rh, fh = w.blocks[0]
+    bid = BlockIdExt(-1, -(1 << 63), 100, rh, fh)
+    nodes = [ValidatorDescr('validator', SigPubKey(w.pubs[i]), 1) for i in range(3)]
+    keys, weights = [0, 1, 2], [1, 1, 1]
+
+    def verdict(mask, nkeys):
+        sig = [i for i in range(nkeys) if mask >> i & 1]
+        entries = [w.entry(('valid', i), 4, 0)[0] for i in sig]
+        want = all(i in keys for i in sig) and 3 * sum(weights[keys.index(i)] for i in sig) > 2 * sum(weights)
+        rec.trans()
+        try:
+            check_block_signatures(nodes, entries, bid)
+            return True, want, sig
+        except Exception:
+            return False, want, sig
+    g1, w1, sig1 = verdict(s1, 3)
+    if change[0] == 'key':
+        nodes[m].public_key = SigPubKey(w.pubs[change[1]])
+        keys[m] = change[1]
+    else:
+        nodes[m].weight = change[1]
+        weights[m] = change[1]
+    g2, w2, sig2 = verdict(s2, 4)
+    rec.trace(2)
+    rec.covered('reused-descriptors')
+    if g1 != w1:
+        rec.violation('reused:first-call', f'validators [0,1,2], signatures by {sig1}: {"accepted" if g1 else "rejected"}', 'case_reused', args)
+    elif g2 != w2:
+        rec.violation('reused:after-change:' + ('accepted' if g2 else 'rejected'),
+                      f'after a check with keys [0,1,2] (signatures by {sig1}) descriptor #{m} got {change[0]} {change[1]}; signatures by {sig2} over keys {keys}, weights {weights}: '
+                      f'{"accepted" if g2 else "rejected"}, must be {"accepted" if w2 else "rejected"} (a value remembered from before the change?)', 'case_reused', args)
+        rec.outcome('STALE')
+    else:
+        rec.outcome('reused-ok')
+
+
+def shard_reused(rec):
+    for s1 in range(8):
+        for m in range(3):
+            for change in (('key', 3), ('weight', 5), ('weight', 0)):
+                for s2 in range(16):
+                    case_reused(rec, s1, m, change, s2)
+    rec.sample({'reused_descriptors': {'s1': 7, 'm': 0, 'change': ['key', 3], 's2': 0b0111}})
+
+
 def shard_two_calls(rec, part, parts):
     cfgs = [(m, sg, blk) for m in range(8) for sg in range(8) for blk in (0, 1) if blk == 0 or (m, sg) in ((7, 7), (3, 3), (1, 1))]
     k = 0
@@ -255,6 +317,7 @@ def shards(tier, seed):
         out.append({'fn': 'shard_n', 'args': {'n': 3, 'part': p, 'parts': 16}, 'prio': 2})
     for p in range(4):
         out.append({'fn': 'shard_two_calls', 'args': {'part': p, 'parts': 4}})
+    out.append({'fn': 'shard_reused', 'args': {}})
     if tier == 'thorough':
         for p in range(48):
             out.append({'fn': 'shard_n', 'args': {'n': 4, 'part': p, 'parts': 48}, 'prio': 3})
